@@ -470,6 +470,8 @@ fn transitivity(
 //------------ the monitor ----------------------------------------------------
 
 pub fn run(ctx: &mut Ctx) {
+    // values made by serde and by Arbitrary obey the same laws as constructed ones
+    crate::c13_any::run(ctx);
     let size: u8 = match (ctx.stage, ctx.tier) {
         (Stage::Miri, _) => 0,
         (Stage::Native, Tier::Thorough) => 2,
